@@ -20,14 +20,15 @@ theorem perm_rotate (left acc now : List Addr) : (left ++ (acc ++ now)).Perm ((n
 
 theorem acceptFrom_some {r r' : Record} {froms : List Addr} (h : r.acceptFrom froms = some r') :
     keyOf r' = keyOf r ∧ r'.coins = r.coins ∧ r'.unacc = r.unacc.filter (fun a => !froms.contains a) ∧
-      (r.unacc.filter fun a => froms.contains a).isEmpty = false := by
+      (r.unacc.filter fun a => froms.contains a).isEmpty = false ∧
+      r'.acc = r.acc ++ r.unacc.filter (fun a => froms.contains a) := by
   unfold Record.acceptFrom Record.findAddresses at h
   simp only at h
   cases hn : (r.unacc.filter fun a => froms.contains a).isEmpty
   · rw [hn] at h
     simp only [Bool.false_eq_true, if_false, Option.some.injEq] at h
     subst h
-    refine ⟨?_, rfl, rfl, rfl⟩
+    refine ⟨?_, rfl, rfl, rfl, rfl⟩
     apply createRecordSuffix_perm
     simp only [Record.getAllFromAddrs]
     refine (perm_rotate _ _ _).trans ?_
@@ -149,7 +150,8 @@ structure Accepted (s s' : State) (to : Addr) (froms : List Addr) (rs : List Rec
   other : ∀ k, k ∉ rs.map (fun r => (to, keyOf r)) → kvGet s'.recs k = kvGet s.recs k
   each : ∀ r ∈ rs, if releases froms r then kvGet s'.recs (to, keyOf r) = none
       else ∃ r', kvGet s'.recs (to, keyOf r) = some r' ∧ r'.coins = r.coins ∧
-        r'.unacc = r.unacc.filter (fun a => !froms.contains a)
+        r'.unacc = r.unacc.filter (fun a => !froms.contains a) ∧
+        r'.acc = r.acc ++ r.unacc.filter (fun a => froms.contains a)
 
 theorem filter_not_of_filter_empty {l froms : List Addr}
     (h : (l.filter fun a => froms.contains a).isEmpty = true) : l.filter (fun a => !froms.contains a) = l := by
@@ -203,11 +205,12 @@ theorem acceptLoop_ok (to : Addr) (froms : List Addr) :
         rcases List.mem_cons.mp hx with rfl | hx
         · rw [hrel]
           simp only [Bool.false_eq_true, if_false]
-          exact ⟨x, by rw [A.other _ hkey_notin]; exact hstored, rfl, (filter_not_of_filter_empty hemp).symm⟩
+          exact ⟨x, by rw [A.other _ hkey_notin]; exact hstored, rfl, (filter_not_of_filter_empty hemp).symm,
+            by rw [List.isEmpty_iff.mp hemp, List.append_nil]⟩
         · exact A.each x hx
     | some r1 =>
       simp only [haf] at h
-      obtain ⟨hk1, hc1, hu1, hnow⟩ := acceptFrom_some haf
+      obtain ⟨hk1, hc1, hu1, hnow, hacc1⟩ := acceptFrom_some haf
       cases hfa : r1.isFullyAccepted
       · -- partially accepted: the record is rewritten with the same coins
         simp only [hfa, Bool.false_eq_true, if_false] at h
@@ -216,6 +219,7 @@ theorem acceptLoop_ok (to : Addr) (froms : List Addr) :
         have hc2 : r2.coins = r.coins := by rw [← hr2]; exact hc1
         have hu2 : r2.unacc = r.unacc.filter (fun a => !froms.contains a) := by rw [← hr2]; exact hu1
         have hfa2 : r2.isFullyAccepted = false := by rw [← hr2]; exact hfa
+        have ha2 : r2.acc = r.acc ++ r.unacc.filter (fun a => froms.contains a) := by rw [← hr2]; exact hacc1
         have hnn : ∀ d, 0 ≤ Coins.amountOf r.coins d := inv.nonneg _ (mem_of_kvGet hstored)
         have inv1 := inv_setQR inv to r2 (by rw [hc2]; exact hnn)
         have snap1 : Snapshot (setQuarantineRecord s to r2) to rest := snap.after_set hk2 rfl
@@ -247,7 +251,7 @@ theorem acceptLoop_ok (to : Addr) (froms : List Addr) :
           rcases List.mem_cons.mp hx with rfl | hx
           · rw [hrel]
             simp only [Bool.false_eq_true, if_false]
-            exact ⟨r2, by rw [A.other _ hkey_notin]; exact hself, hc2, hu2⟩
+            exact ⟨r2, by rw [A.other _ hkey_notin]; exact hself, hc2, hu2, ha2⟩
           · exact A.each x hx
       · -- fully accepted: paid and deleted
         simp only [hfa, if_true] at h
